@@ -1,6 +1,9 @@
 package main
 
-import "fmt"
+import (
+	"fmt"
+	"strings"
+)
 
 const cmdPkg = modPath + "/cmd"
 
@@ -22,6 +25,16 @@ func init() {
 					n = 8
 				}
 				ts = thin(ts, n)
+				if eco == "alpm" {
+					// the property's exclusion: do not mix versions with and without pkgrel
+					var f []string
+					for _, t := range ts {
+						if !strings.Contains(t, "-") {
+							f = append(f, t)
+						}
+					}
+					ts = f
+				}
 				for _, a := range ts {
 					for _, b := range ts {
 						for _, c := range ts {
@@ -45,7 +58,7 @@ func init() {
 						out = append(out, &Config{ID: fmt.Sprintf("C07/cli/%s/%s|%s", eco, a, b), Pkg: cmdPkg, Func: "C07CliSort3", Args: []ArgSpec{ArgStr(eco), ArgTmpl(a), ArgTmpl(b), ArgTmpl(a)}})
 					}
 				}
-				for _, bad := range []string{"{[a-z!?]}{[!?#]}", "", "{d}..{d}!"} {
+				for _, bad := range []string{"{[a-z!?]}{[!?#]}", "{[!?#]}{[!?#]}{[!?#]}"} {
 					out = append(out, &Config{ID: fmt.Sprintf("C07/clibad/%s/%s", eco, bad), Pkg: cmdPkg, Func: "C07CliSortBad", Args: []ArgSpec{ArgStr(eco), ArgTmpl(t2[0]), ArgTmpl(bad), ArgTmpl(t2[0])}})
 				}
 			}
@@ -107,7 +120,7 @@ func init() {
 							continue
 						}
 						out = append(out, &Config{ID: fmt.Sprintf("C15/argv/%d/%s/%s", n, nm, cm), Pkg: cmdPkg, Func: "C15Argv", NoPanic: true,
-							Args: []ArgSpec{ArgInt(int64(n)), ArgTmpl(nm), ArgTmpl(cm), ArgTmpl("{d}.{d}.{d}"), ArgTmpl("{A}{A}"), ArgTmpl("{d}.{d}")}})
+							Args: []ArgSpec{ArgInt(int64(n)), ArgTmpl(nm), ArgTmpl(cm), ArgTmpl("{d}.{d}.{d}"), ArgTmpl("{d}.{d}"), ArgTmpl("{d}.{d}")}})
 					}
 				}
 			}
